@@ -32,6 +32,69 @@ func init() {
 	Registry["C14"] = runC14
 	childModes["c14ladder"] = c14LadderChild
 	childModes["c14hunt"] = c14HuntChild
+	childModes["c14css"] = c14CSSChild
+}
+
+// c14CSSChild: args tier, chunk, nchunks. Calls every default CSS handler of the chunk's
+// properties directly on all single pool tokens, token pairs and sampled triples, with
+// recover() per call: a handler must return, never panic.
+func c14CSSChild(args []string) int {
+	if len(args) != 3 {
+		return core.ExitInconclusive
+	}
+	chunk, _ := strconv.Atoi(args[1])
+	nchunks, _ := strconv.Atoi(args[2])
+	debug.SetMaxStack(64 << 20)
+	ctx := core.NewCtx("C14", args[0], 1)
+	pool := gen.CSSTokenPool()
+	pool = append(pool, "", " ", "inset", "inset 1px", ",", "/", "(", ")", "url(", "\\", "-", ".", "#", "1px 1px", "a,b")
+	second := pool
+	if ctx.Quick() {
+		second = nil
+		for i, t := range pool {
+			if i%7 == chunk%7 || len(t) <= 3 || strings.ContainsAny(t, "(") {
+				second = append(second, t)
+			}
+		}
+	}
+	ctx.RunSeq("css-hunt", len(gen.CSSProperties), func(cs *core.Case) {
+		if cs.Index%nchunks != chunk {
+			return
+		}
+		prop := gen.CSSProperties[cs.Index]
+		h := css.GetDefaultHandler(prop)
+		n := 0
+		call := func(v string) {
+			defer func() {
+				if e := recover(); e != nil {
+					cs.Violate("C14:panic:css:"+handlerName(h), fmt.Sprintf("default handler of %q panicked on value %q: %v", prop, v, e),
+						map[string]interface{}{"property": prop, "value": core.Show(v), "panic": fmt.Sprint(e), "stack": core.Clip(string(debug.Stack()), 3000)})
+				}
+			}()
+			n++
+			h(v)
+		}
+		for _, a := range pool {
+			call(a)
+			for _, b := range second {
+				call(a + " " + b)
+			}
+		}
+		r := cs.R
+		for i := 0; i < ctx.N(3000, 30000); i++ {
+			k := 3 + r.Intn(3)
+			parts := make([]string, k)
+			for j := range parts {
+				parts[j] = pool[r.Intn(len(pool))]
+			}
+			call(strings.Join(parts, gen.Pick(r, []string{" ", " ", ",", ", ", " / "})))
+		}
+		cs.EvalN(n)
+		cs.Count("css_handler_hunt_calls", n)
+		cs.Nontrivial(core.Hash("css-hunt", prop))
+	})
+	fmt.Printf("\nVMON-CHILD-STATE %s\n", ctx.ExportState())
+	return 0
 }
 
 // ---------------------------------------------------------------------------
@@ -494,7 +557,35 @@ func runC14(ctx *core.Ctx) {
 			}
 		}(b)
 	}
+	// direct CSS handler hunt in 16 child chunks
+	const cssChunks = 16
+	for c := 0; c < cssChunks; c++ {
+		if ctx.Replaying && !(ctx.ReplayStream == "css-hunt" && ctx.ReplayIndex%cssChunks == c) {
+			continue
+		}
+		hw.Add(1)
+		sem <- struct{}{}
+		go func(c int) {
+			defer hw.Done()
+			defer func() { <-sem }()
+			res := core.RunChild("c14css", []string{ctx.Tier, fmt.Sprint(c), fmt.Sprint(cssChunks)}, 0, 1200)
+			merged := false
+			if j := strings.LastIndex(string(res.Stdout), "\nVMON-CHILD-STATE "); j >= 0 {
+				if ctx.MergeState([]byte(strings.TrimSpace(string(res.Stdout)[j+len("\nVMON-CHILD-STATE "):]))) == nil {
+					merged = true
+				}
+			}
+			if res.TimedOut {
+				ctx.Inconclusive(fmt.Sprintf("css hunt chunk %d hit the wall-clock watchdog", c))
+			} else if !merged {
+				first := strings.SplitN(strings.TrimSpace(res.Stderr), "\n", 2)[0]
+				cs := &core.Case{Ctx: ctx, Stream: "css-hunt", Index: c}
+				cs.Violate("C14:fatal:css-hunt:"+fatalClass(first), fmt.Sprintf("css handler hunt worker %d died (exit %d, signal %q): %s", c, res.Exit, res.Signal, core.Clip(first, 300)), map[string]interface{}{"stderr": core.Clip(res.Stderr, 6000)})
+			}
+		}(c)
+	}
 	hw.Wait()
+	ctx.Floor("css_handler_hunt_calls", 1000000)
 	ctx.MinNontrivial(int64(ctx.N(20000, 200000)))
 	ctx.Floor("ladders_run", int64(len(jobs))*9/10)
 	ctx.Floor("rungs_measured", int64(len(jobs))*5)
